@@ -13,3 +13,4 @@ import TLX.Props.OnCode.C15
 import TLX.Props.OnCode.C09
 import TLX.Props.OnCode.C10
 import TLX.Props.OnCode.C01
+import TLX.Props.OnCode.C05
